@@ -94,8 +94,8 @@ def schemaToDecl (ρ : String → FieldDecl) : Schema → FieldDecl
   | .arrAny sz => .seqAny .list sz
   | .arrOf s sz => .seqOf .list (schemaToDecl ρ s) sz
   | .arrPos ss addl sz => .seqPos .list (schemaToDeclL ρ ss) addl sz
-  -- `if not any([additional_properties, …]): return []` — `minItems`/`maxItems` are dropped too
-  | .mapAny _ _ _ => .mapAny {}
+  -- no value schema (also: a boolean `additionalProperties`): `Map(maxItems=…, minItems=…)`
+  | .mapAny _ mn mx => .mapAny (mapSize mn mx)
   | .mapOf v mn mx => .mapOf (.string none none none) (schemaToDecl ρ v) (mapSize mn mx)
   | .obj props defaults required addl =>
     .struct (inlineOpts (declRequired (props.map (·.1)) (defaults.map (·.1)) required) addl)
@@ -150,7 +150,7 @@ def numSchema (integer : Bool) (o : NumOpts) : Schema :=
 
 /-- `EnumMapper.to_schema` raises TypeError unless every value is an int, float or str -/
 def enumValOk : PyVal → Bool
-  | .str _ | .int _ | .float _ | .bool _ => true
+  | .str _ | .int _ | .float _ | .bool _ | .none => true
   | _ => false
 
 def sameSet (a b : List String) : Bool := a.all b.contains && b.all a.contains
@@ -265,9 +265,8 @@ def issues : Schema → List String
   | .arrAny _ => []
   | .arrOf s _ => issues s
   | .arrPos ss _ _ => issuesL ss
-  | .mapAny addlKw mn mx =>
+  | .mapAny addlKw _ _ =>
     (if addlKw.isSome then ["map-additionalProperties-bool"] else [])
-      ++ (if mn.isSome || mx.isSome then ["map-size-dropped"] else [])
   | .mapOf v _ _ => issues v
   | .obj props defaults required addl =>
     objIssues (props.map (·.1)) (defaults.map (·.1)) required addl ++ issuesP props
@@ -391,7 +390,6 @@ mutual
 /-- generation raises: `additionalProperties: true|false` … on a property-less object is handed to
     `convert_to_field_code` (`"$ref" in True` → TypeError) when true -/
 def crashes : Schema → List String
-  | .mapAny (some true) _ _ => ["crash:map-additionalProperties-true"]
   | .arrOf s _ => crashes s
   | .arrPos ss _ _ => crashesL ss
   | .mapOf v _ _ => crashes v
@@ -459,6 +457,42 @@ def defsEnv : List (String × FieldDecl) → List (String × Schema) → List (S
 
 def envResolver (env : List (String × FieldDecl)) : String → FieldDecl :=
   fun r => (lookup r env).getD (.struct { name := r, required := [], accepts := [r] } [] [])
+
+/-! ### order of the definitions: depth-first, referenced definitions first -/
+
+abbrev Defs := List (String × Schema)
+
+/-- `_definitions_in_dependency_order`, one root: the definitions `n` refers to (transitively, in
+    order of appearance, skipping unknown names and names already started), then `n`;
+    state = (started, ordered) -/
+def visitDef (defs : Defs) : Nat → String → List String × List String → List String × List String
+  | 0, _, st => st
+  | fuel + 1, n, st =>
+    if st.1.contains n then st
+    else match lookup n defs with
+      | none => st
+      | some s =>
+        let st' := (refsOf s).foldl (fun acc r => visitDef defs fuel r acc) (n :: st.1, st.2)
+        (st'.1, st'.2 ++ [n])
+
+/-- the emission order of the definitions' names -/
+def topoOrder (defs : Defs) : List String :=
+  ((defs.map (·.1)).foldl (fun acc n => visitDef defs (defs.length + 1) n acc) ([], [])).2
+
+def knownDef (defs : Defs) (r : String) : Bool := (lookup r defs).isSome
+
+/-- on the reversed emission order (latest first): every definition comes after all the
+    definitions it refers to -/
+def definedBeforeUse (defs : Defs) : List String → Prop
+  | [] => True
+  | n :: earlier =>
+    (∀ s, lookup n defs = some s → ∀ r ∈ refsOf s, knownDef defs r = true → r ∈ earlier)
+      ∧ definedBeforeUse defs earlier
+
+/-- the references between definitions have no cycle: a rank decreases along every reference -/
+def Acyclic (defs : Defs) : Prop :=
+  ∃ rk : String → Nat, (∀ n, rk n ≤ defs.length) ∧
+    ∀ n s, lookup n defs = some s → ∀ r ∈ refsOf s, knownDef defs r = true → rk r < rk n
 
 /-! ### string-bearing parts of the emitted text -/
 
